@@ -5,7 +5,7 @@
 # mutation. One line per seed in /root/rc/result.log. The copies are removed at the end. /repo itself is not touched.
 W=${1:-6}; shift
 PROPS="$@"
-RC=/root/rc
+RC=${RCDIR:-/root/rc}      # RCDIR / RCLOG: a second instance next to a running one
 rm -rf $RC; mkdir -p $RC
 git -C /repo worktree prune
 ALL=()
@@ -45,6 +45,7 @@ worker() {
 for k in $(seq 0 $((W - 1))); do worker $k & done
 wait
 git -C /repo worktree prune
-sort $RC/result.log > /root/recheck.log
-echo "caught: $(grep -c caught /root/recheck.log)  of ${#ALL[@]}"
-grep -v caught /root/recheck.log
+LOG=${RCLOG:-/root/recheck.log}
+sort $RC/result.log > $LOG
+echo "caught: $(grep -c caught $LOG)  of ${#ALL[@]}"
+grep -v caught $LOG
